@@ -14,14 +14,22 @@ const safetyRe = `^(bounds|nil|nilmap|panic|overflow|assert|divzero|nilfunc|pre:
 
 func sshdUnits(handlerInc []string, acceptedInc []string, entryInc []string, sshdLogInc []string) []unit {
 	var us []unit
-	for _, h := range sshdHandlers {
-		us = append(us, u("processors/sshd."+h, handlerInc...))
+	if handlerInc != nil {
+		for _, h := range sshdHandlers {
+			us = append(us, u("processors/sshd."+h, handlerInc...))
+		}
 	}
-	for _, h := range sshdAccepted {
-		us = append(us, u("processors/sshd."+h, acceptedInc...))
+	if acceptedInc != nil {
+		for _, h := range sshdAccepted {
+			us = append(us, u("processors/sshd."+h, acceptedInc...))
+		}
 	}
-	us = append(us, u("processors/sshd.ProcessEntry", entryInc...))
-	us = append(us, u("processors/sshd.(*SshdProcessorer).ProcessSshdLogEntry", sshdLogInc...))
+	if entryInc != nil {
+		us = append(us, u("processors/sshd.ProcessEntry", entryInc...))
+	}
+	if sshdLogInc != nil {
+		us = append(us, u("processors/sshd.(*SshdProcessorer).ProcessSshdLogEntry", sshdLogInc...))
+	}
 	return us
 }
 
@@ -180,6 +188,27 @@ func propDefs() map[string]propDef {
 			"loopWithError (goroutines, select over fsnotify events) is not under contract: only the functions it calls are; fsnotify event delivery and the OS are not decided"},
 		Explain: "sortLogNamesOldToNew: the result contains exactly the kept directory entries and is ordered by age (audit.log.N before audit.log.M for N > M, the live log last) — for any number of files; readLines: loop invariant over the assumed bufio contract: the lines sent are exactly the complete records without their newline, in order, and the byte count is the sum of the complete records (the unterminated tail is neither delivered nor counted); rotatingFile.read: create/remove/rename reset the offset, other events leave everything unchanged, a write event delivers the complete lines after the offset and advances it by whole lines only",
 	}
+	m["C08"] = propDef{ID: "C08", Level: "other",
+		Units: []unit{u("internal/common.IsNamedPipe"), u("cmd.RunNamedPipe$3"), u("cmd.RunNamedPipe$4"), u("cmd.RunNamedPipe$5"), u("main.main"), u("main.mainWithError"),
+			u("ingesters/namedpipe.(*NamedPipeIngester).Ingest", `^ensures:(nonnil|cberr|rderr)`, `^blocks:`), u("ingesters/auditlog.(*AuditLogIngester).Ingest", `^ensures:`, `^blocks:`, `^pre:`),
+			u("ingesters/syslog.(*SyslogIngester).Ingest", `^ensures:`, `^blocks:`, `^pre:`), u("ingesters/auditlog.(*AuditLogIngester).Process", `^blocks:`, `^ensures:`),
+			u("processors/auditd.(*Auditd).Read", `^ensures:nonnil`, `^blocks:`, `^selects:`), u("processors/auditd.parseAuditLogs", `^ensures:(nonnil|cause)`, `^blocks:`)},
+		Structural: []string{"runnamedpipe-wiring"},
+		Assume: []string{"errgroup semantics: the first non-nil worker error cancels the group context and is returned by Wait (dependency)",
+			"signal.NotifyContext cancels on SIGTERM/SIGINT; process exit status after log.Fatalln; delivery of signals (OS)",
+			"that cancellable workers return within a BOUNDED TIME and behaviour under sustained load are timing properties and are not decided; the structural fact that no worker can block uncancellably is C13",
+			"cmd.RunNamedPipe itself is not symbolically executed (flag parsing, logger construction): its contract only names its result; its wiring is checked structurally on the SSA"},
+		Explain: "error-propagation chain, function by function: IsNamedPipe returns nil iff the stat succeeded and the mode has ModeNamedPipe (32-bit vector obligation) and returns the stat error unchanged; each of the three pipeline workers only ever returns a non-nil error (Ingest never returns nil, Read never returns nil, a failed IsNamedPipe is wrapped); read off the SSA of RunNamedPipe: one errgroup derived from the ctx parameter, every context argument inside every worker is the group's context, Wait's error is returned; mainWithError passes the signal context and returns RunNamedPipe's result; main calls log.Fatalln exactly when that result is non-nil; plus the C13 obligations of the workers",
+	}
+	m["C10"] = propDef{ID: "C10", Level: "other",
+		Units: append(append(sshdUnits(nil, []string{`^chaninv:`, `^ensures:send`}, []string{`^ensures:send`}, []string{`^ensures:send`}),
+			trk([]string{`^ensures:(causal|c01)`}, []string{`^ensures:(causal|c01)`}, nil, nil, []string{`^ensures:causal`}, []string{`^ensures:causal`})...),
+			u("processors/auditd/sessiontracker.NewSessionTracker", `^ensures:causal`), u("processors/auditd.(*Auditd).Read", `^inv-.*causal`, `^pre:`)),
+		Structural: []string{"runnamedpipe-wiring"},
+		Assume: []string{"that one EventWriter.Write call produces one complete, untorn line when two goroutines share a json.Encoder over an O_APPEND file is library and OS behaviour: NOT decided (the 'whole JSON events' half of the property is not claimed)",
+			"the channel message invariant is assumed at the receive in Read and checked at every send"},
+		Explain: "causal-order half only: channel message invariant of the logins channel 'the login's event has already been written' (ghost writtenat, stable because out only grows) is proved at every send (the hand-off comes after the successful Write of the same event object) and assumed at the receive; the tracker preserves 'every login it holds has been written' (Causal) in all four operations and every UserAction it appends sits after the UserLogin event whose identity it carries (writtenat(out[i].by) <= i); one Write per emitted event (C02/C06); read off RunNamedPipe: one EventWriter shared by both processors, one logins channel",
+	}
 	m["C14"] = propDef{ID: "C14", Level: "proof",
 		Units: trk(
 			nil,
@@ -231,5 +260,4 @@ func (w *World) runLemma(lu lemmaUnit, opts solveOpts, thorough bool) ([]*Obliga
 	return []*Obligation{{Name: "lemma/" + lu.Name, Kind: "subset", Status: "failed", Solver: "structural", Detail: "unknown lemma generator"}}, nil
 }
 
-func (w *World) runStructural(name string) []*Obligation { return nil }
 
